@@ -757,21 +757,42 @@ def _guard_correlated(call: ast.Call, stmt: ast.stmt, fnode: Optional[ast.AST]) 
     g_if = parent(stmt)
     if not isinstance(g_if, ast.If) or stmt not in g_if.body:
         return False, f"`{var}` gets an id()-derived value unconditionally"
+    from sa.match import Locals as _Lgc
+
+    GL = _Lgc(fnode)
+
+    def _n(e: ast.AST) -> str:
+        return norm(GL.inline(e, stop=tuple(GL.params)))  # flags bound once (`stays_inline = a or b`) are looked through
+
     conj = g_if.test.values if isinstance(g_if.test, ast.BoolOp) and isinstance(g_if.test.op, ast.And) else [g_if.test]
-    conj_txt = {norm(c) for c in conj}
+    conj_txt = {norm(c) for c in conj} | {_n(c) for c in conj}
     uses = [n for n in own_nodes(fnode) if isinstance(n, ast.Name) and n.id == var and isinstance(n.ctx, ast.Load) and n.lineno > stmt.lineno]
     if not uses:
         return True, f"`{var}` is not used after the id()-derived assignment"
     for u in uses:
         pp = parent(u)
-        dead = isinstance(pp, ast.IfExp) and pp.orelse is u and norm(pp.test) in conj_txt
-        if isinstance(pp, ast.IfExp) and pp.body is u and isinstance(pp.test, ast.UnaryOp) and isinstance(pp.test.op, ast.Not) and norm(pp.test.operand) in conj_txt:
+        dead = isinstance(pp, ast.IfExp) and pp.orelse is u and (norm(pp.test) in conj_txt or _n(pp.test) in conj_txt)
+        if isinstance(pp, ast.IfExp) and pp.body is u and isinstance(pp.test, ast.UnaryOp) and isinstance(pp.test.op, ast.Not) and (
+                norm(pp.test.operand) in conj_txt or _n(pp.test.operand) in conj_txt):
             dead = True
+        # the statement form: `if G: x = None else: x = V`
+        st_u = enclosing_stmt(u)
+        anc = parent(st_u)
+        if not dead and isinstance(anc, ast.If):
+            t_ = anc.test
+            neg_ = False
+            while isinstance(t_, ast.UnaryOp) and isinstance(t_.op, ast.Not):
+                t_, neg_ = t_.operand, not neg_
+            in_else = any(st_u is b for b in anc.orelse)
+            in_body = any(st_u is b for b in anc.body)
+            if (norm(t_) in conj_txt or _n(t_) in conj_txt) and ((in_else and not neg_) or (in_body and neg_)):
+                dead = True
         if not dead:
             return False, (f"`{var}` = `{norm(stmt.value)[:50]}` is assigned under `{norm(g_if.test)[:70]}` but used at line {u.lineno} in "
                            f"`{norm(enclosing_stmt(u))[:70]}` where that guard is not known to be false: a memory address becomes a schema/file name")
         # the guard's variables must not be reassigned in between
-        names = {x.id for c in conj for x in ast.walk(c) if isinstance(x, ast.Name) and norm(c) == norm(pp.test if not isinstance(pp.test, ast.UnaryOp) else pp.test.operand)}
+        names = {x.id for c in conj for x in ast.walk(c) if isinstance(x, ast.Name)} if not isinstance(pp, ast.IfExp) else {
+            x.id for c in conj for x in ast.walk(c) if isinstance(x, ast.Name) and norm(c) == norm(pp.test if not isinstance(pp.test, ast.UnaryOp) else pp.test.operand)}
         for n in own_nodes(fnode):
             if isinstance(n, ast.Assign) and stmt.lineno < n.lineno < u.lineno and any(isinstance(t, ast.Name) and t.id in names for t in n.targets):
                 return False, f"guard variable reassigned between the id()-derived assignment and its use (line {n.lineno})"
